@@ -804,7 +804,12 @@ func (b *outlierDetectionBalancer) failurePercentageAlgorithm() {
 
 // Caller must hold b.mu.
 func (b *outlierDetectionBalancer) ejectEndpoint(epInfo *endpointInfo, detectionMethod string) {
-	b.numEndpointsEjected++
+	// An endpoint that is already ejected can reach the request volume again
+	// through RPCs that were in flight when it was ejected; ejecting it again
+	// must not count it twice.
+	if epInfo.latestEjectionTimestamp.IsZero() {
+		b.numEndpointsEjected++
+	}
 	epInfo.latestEjectionTimestamp = b.timerStartTime
 	epInfo.ejectionTimeMultiplier++
 	for _, sbw := range epInfo.sws {
